@@ -148,6 +148,23 @@ def run(ctx, progs):
         ctx.ob("R29.a", "R29.a:collect_vector_maps:candidate-guards", ok,
                "a graph candidate is kept only if it is live and passes the request filter and the vector filter; score x boost" if ok else
                "vector candidate kept at %s %s" % (Site(f, b).loc(), "; ".join(why)), Site(f, b).loc())
+    # ---- (e) the number of graph candidates asked for does not depend on deletions
+    ctx.rule("R29.e", "FLOW (deleted vectors still occupy the graph): the `k` handed to HnswIndex::search in collect_vector_maps derives "
+                      "from the clause's candidate_size / k and the number of vectors in the graph (HnswIndex::len) only — nothing "
+                      "deletion-dependent (live_docs, is_deleted, deleted_docs) influences it. Deleted documents are filtered out AFTER "
+                      "the search, so a request shrunk to the live count loses live neighbours to deleted ones")
+    from sa.prog import influence
+    for b, t in searches:
+        k_op = t["args"][2] if len(t["args"]) > 2 else None
+        if k_op is None:
+            continue
+        inf = influence(f, k_op, lambda a_: any("ForLoop" in m for m in (f.blocks[a_]["term"].get("macros") or [])))
+        dep = sorted(c for c in inf["calls"] if c.endswith(("::live_docs", "::is_deleted", "::deleted_count", "::live_count"))) + \
+            sorted(x for x in inf["fields"] if x in ("deleted_docs", "deleted", "live_docs"))
+        ctx.ob("R29.e", "R29.e:collect_vector_maps:search-size-independent-of-deletions", not dep,
+               "the graph search size depends on the clause budgets and the graph size only" if not dep else
+               "the number of candidates requested from the graph depends on %s: deleted vectors take slots of live ones and the nearest "
+               "live neighbours are missed" % ", ".join(x.rsplit("::", 1)[-1] for x in dep), Site(f, b).loc())
     # ---- (b)
     g = P.fn(N.READER + "::build_vector_plan")
     if ctx.anchor("R29.b", g, "IndexReader::build_vector_plan"):
